@@ -45,7 +45,7 @@ func scenarioC01(r *Run) {
 	if err != nil {
 		r.Outcome("sign-refused")
 		r.Probe("sign-refused-on-conforming-spec")
-		r.Logf("sign refused: %v", err)
+		r.Logf("sign refused: %s", errTag(err))
 		return
 	}
 	r.Outcome("signed")
@@ -288,7 +288,7 @@ func c01Envelope(r *Run) {
 	if err != nil {
 		r.Outcome("envelope-refused")
 		r.Probe("sign-refused-on-conforming-spec")
-		r.Logf("envelope refused: %v", err)
+		r.Logf("envelope refused: %s", errTag(err))
 		return
 	}
 	r.Check()
